@@ -47,6 +47,7 @@ class StarterStoreApplication:
     raises = ()
     returns = 'Optional[bool]'
     types = {'strategy': 'Optional[StartingStrategies]'}
+    effect = 'store_application'
 
     def post_stored_iff_a_positive_sequence(self, application, result):
         return (result is True) == exists(int, lambda s: s > 0 and s in application.start_sequence)
@@ -64,70 +65,83 @@ class StarterStoreApplication:
 
 
 # ------------------------------------------------------------------------------------------ Stopper.store_application
-@contract('commander:ApplicationStopJobs.__init__', props=[])
-class StopJobsInit:
-    """constructor: stores its arguments, empty in-flight list (the instance attribute pickup_logic = max it sets is
-    resolved by the engine from the source when ApplicationJobs.next is verified, contracts/c03.py)"""
+@contract('commander:Stopper.store_application', props=[])
+class StopperStoreApplicationCalled:
+    """file-local abstraction for Stopper.stop_applications below: only the call is logged (the keying contract of
+    Stopper.store_application itself did not converge, see contracts/wip_c09_stopper_store_application.txt)"""
     assumed = True
     raises = ()
+    effect = 'store_application'
+
+
+# ------------------------------------------------------------------------------------------ start / stop applications
+@contract('application:ApplicationStatus.never_started', props=[])
+class NeverStarted:
+    """read-only predicate over the process information records"""
+    assumed = True
+    raises = ()
+    returns = 'bool'
 
     def modifies(self):
-        return [field(self, 'supvisors'), field(self, 'application'), field(self, 'application_name'),
-                field(self, 'planned_jobs'), field(self, 'current_jobs')]
+        return []
 
-    def post_fields(self, application, jobs, supvisors):
-        return (self.application is application and self.planned_jobs is jobs and self.supvisors is supvisors
-                and self.application_name == application.application_name
-                and was_fresh(self.current_jobs) and len(self.current_jobs) == 0)
+    def post_definition(self, result):
+        return result == uf('never_started', bool, self)
 
 
-@contract('commander:Stopper.store_application', props=['C09'])
-class StopperStoreApplication:
-    """C09: 'applications are stopped in decreasing application stop_sequence' / 'processes are asked to stop in
-    decreasing stop_sequence order' - anchor 'Stopper plan: application stop_sequence -> process stop_sequence ->
-    (process, instance) commands'.  When something is planned, the job of the application lands under the key
-    application.rules.stop_sequence and the sequence numbers of its plan are sequence numbers of
-    application.stop_sequence (ApplicationStatus.update_sequences keys it by the processes' own rules.stop_sequence;
-    'stop sequence applies to unmanaged applications too')."""
+@contract('application:ApplicationStatus.has_running_processes', props=[])
+class HasRunningProcesses:
+    """read-only: 'one of the application processes is running'"""
+    assumed = True
     raises = ()
-    types = {'stop_sequence': 'Dict[int, List[ProcessCommand]]'}
+    returns = 'bool'
 
-    def pre_running_copies_are_known(self, application):
-        """shape validity (C11 I11 / C16): a process runs on instances of the context that reported a full Supervisor
-        information record for it - ProcessStopCommand.__init__ reads instances[identifier] and
-        info_map[identifier]['stopwaitsecs']"""
-        return forall(int, lambda s: implies(s in application.stop_sequence, forall(
-            application.stop_sequence[s], lambda p: forall(p.running_identifiers, lambda i: (
-                i in self.supvisors.context.instances and i in p.info_map and 'stopwaitsecs' in p.info_map[i])))))
+    def modifies(self):
+        return []
 
-    def loop0_inv(self, seen, stop_sequence, application):
-        return forall(int, lambda s: implies(s in stop_sequence, s in application.stop_sequence))
+    def post_definition(self, result):
+        return result == uf('has_running_processes', bool, self)
 
-    def loop0_modifies(self, stop_sequence):
-        return [contents(stop_sequence)]
 
-    def post_nothing_else_planned(self, application, old):
-        """only the entry of application.rules.stop_sequence may appear / change"""
-        prio = application.rules.stop_sequence
-        return forall(int, lambda s: implies(s != prio, (s in self.planned_jobs) == (s in old.self.planned_jobs)
-                                             and implies(s in self.planned_jobs,
-                                                         self.planned_jobs[s] is old.self.planned_jobs[s])))
+@contract('commander:Starter.start_applications', props=['C03'])
+class StartApplications:
+    """C03: 'Processes and applications whose start_sequence is 0 are never started automatically' (anchor: 'sequence 0
+    excluded: Starter.start_applications'); docstring: 'auto-started applications (start_sequence > 0) are not restarted
+    if they have been stopped intentionally; exception is made for applications in failure'.  Per application of the
+    context: it is stored in the plan (one store_application(application), default strategy) iff its
+    rules.start_sequence > 0 and it was never started or is in failure; nothing is triggered (Commander.next) while the
+    plan is being built.  (KeyError: see CommanderNextPick.)"""
+    raises = ('KeyError',)
 
-    def post_keyed_by_application_stop_sequence(self, application, old):
-        prio = application.rules.stop_sequence
-        name = application.application_name
-        stored = prio in self.planned_jobs and name in self.planned_jobs[prio] \
-            and was_fresh(self.planned_jobs[prio][name])
-        return implies(stored, self.planned_jobs[prio][name].application is application
-                       and isinstance(self.planned_jobs[prio][name], ApplicationStopJobs))
+    def loop0_inv(self, seen):
+        return True
 
-    def post_process_level_keys(self, application):
-        prio = application.rules.stop_sequence
-        name = application.application_name
-        stored = prio in self.planned_jobs and name in self.planned_jobs[prio] \
-            and was_fresh(self.planned_jobs[prio][name])
-        plan = self.planned_jobs[prio][name].planned_jobs
-        return implies(stored, forall(int, lambda s: implies(s in plan, s in application.stop_sequence)))
+    def loop0_iter_planned_iff_positive_sequence(self, application, iter_old):
+        a = iter_old(application)
+        wanted = a.rules.start_sequence > 0 and (uf('never_started', bool, a) or a.major_failure or a.minor_failure)
+        e = effect_at('store_application', 0)
+        one = (e[0] is application and e[1] is None) if count_effects('store_application') == 1 else False
+        return ite(wanted, one, no_effect('store_application')) and no_effect('commander.next')
+
+
+@contract('commander:Stopper.stop_applications', props=['C09'])
+class StopApplications:
+    """C09: 'On supvisors.restart or supvisors.shutdown ... applications are stopped in decreasing application
+    stop_sequence under the same rule' - every application with a running process goes through store_application (which
+    keys it by its stop_sequence) before anything is triggered: nothing is triggered (Commander.next) while the plan is
+    being built; 'stops are only sent to instances where the process is running': an application without running
+    process is not planned.  (KeyError: see CommanderNextPick.)"""
+    raises = ('KeyError',)
+
+    def loop0_inv(self, seen):
+        return True
+
+    def loop0_iter_planned_iff_running(self, application, iter_old):
+        a = iter_old(application)
+        e = effect_at('store_application', 0)
+        one = (e[0] is application) if count_effects('store_application') == 1 else False
+        return ite(uf('has_running_processes', bool, a), one, no_effect('store_application')) \
+            and no_effect('commander.next')
 
 
 # ------------------------------------------------------------------------------------------ Commander.next
@@ -221,15 +235,49 @@ class CommanderNextPick:
     'pop lowest sequence only when current group is empty: Commander.next'); C09: 'applications are stopped in decreasing
     application stop_sequence under the same rule' (anchor: 'pop highest sequence only when current group is empty').
     Decision facet, per call (the application jobs in flight are Commander.current_jobs):
-    * while an application job in flight is still in progress, no application job is retired, nothing is picked, no
-      before() / next() is emitted and the plan is untouched (post_blocked_*);
     * a job is passed to after() and retired exactly when it is no longer in progress (loop0_iter_*);
     * the sequence number picked is the extremum of the planned keys - lowest for the Starter, greatest for the Stopper -
-      and it has left the plan when its jobs are triggered (loop1_inv, established at the pick); when nothing was in
-      flight at the entry of the call, in terms of the entry state: the group triggered is Plan[extremum of the keys];
+      and it has left the plan when its jobs are triggered (loop1_inv, established at the pick);
     * every application job of the picked group gets one before() and one next(), in this call (loop1_iter_*).
-    KeyError is allowed to escape here: `del self.current_jobs[application_name]` after the re-entrant after() call-out
-    is not protected under these abstractions (nothing is assumed of the call-out); not the subject of this facet."""
+    KeyError is allowed to escape: `del self.current_jobs[application_name]` comes after the re-entrant after() call-out,
+    which may already have retired the job - a genuine defect reproduced natively (findings/C09_restart_keyerror_demo.py,
+    recorded in the not_decided list of C09).  With raises = () the obligation safe:KeyError@Commander.next is not
+    decided within 2 minutes under these abstractions, so it is not registered as an obligation / known finding here."""
+    variants = ['Starter', 'Stopper']
+    raises = ('KeyError',)
+    recursive = True
+    effect = 'commander.next'
+    loop0_effects = ('after',)
+    loop1_effects = ('job_before', 'job_next')
+
+    def loop0_inv(self, k):
+        return k >= 0
+
+    def loop0_iter_retired_iff_over(self, k, application_job, application_name, iter_old):
+        over = not job_in_progress(iter_old(application_job))
+        e = effect_at('after', 0)
+        one = (e[0] is application_job) if count_effects('after') == 1 else False
+        return ite(over, one and application_name not in self.current_jobs,
+                   no_effect() and self.current_jobs is iter_old(self.current_jobs)
+                   and (application_name in self.current_jobs) == (application_name in iter_old(self.current_jobs)))
+
+    def loop1_inv(self, k, sequence_number, loop_old):
+        return (k >= 0
+                and sequence_number not in loop_old.self.planned_jobs
+                and forall(int, lambda s: implies(s in loop_old.self.planned_jobs, picked_before(self, sequence_number, s))))
+
+    def loop1_iter_before_and_next(self, k, application_job, iter_old):
+        ok = (effect_at('job_before', 0)[0] is application_job and effect_at('job_next', 0)[0] is application_job) \
+            if count_effects('job_before') == 1 and count_effects('job_next') == 1 else False
+        return ok
+
+
+@contract('commander:Commander.next', props=['C03', 'C09'])
+class CommanderNextBlocked:
+    """Second facet of Commander.next (same clauses of C03 / C09 as CommanderNextPick, the part 'only when current group
+    is empty'), in terms of the entry state: while an application job in flight is still in progress, no application
+    job is retired, nothing is picked and the plan is untouched (the effect side is CommanderNextGuard); when nothing was in
+    flight at the entry of the call, the group triggered is Plan[extremum of the planned keys]."""
     variants = ['Starter', 'Stopper']
     raises = ('KeyError',)
     recursive = True
@@ -240,32 +288,43 @@ class CommanderNextPick:
     def loop0_inv(self, k, old):
         return k >= 0 and implies(all_current_in_progress(self, old), plan_untouched(self, old))
 
-    def loop0_iter_retired_iff_over(self, k, application_job, application_name, iter_old):
-        over = not job_in_progress(iter_old(application_job))
-        e = effect_at('after', 0)
-        one = (e[0] is application_job) if count_effects('after') == 1 else False
-        return ite(over, one and application_name not in self.current_jobs,
-                   no_effect() and self.current_jobs is iter_old(self.current_jobs)
-                   and (application_name in self.current_jobs) == (application_name in iter_old(self.current_jobs)))
-
     def loop1_inv(self, k, sequence_number, loop_old, old):
         nothing_in_flight = len(old.self.current_jobs) == 0
-        return (k >= 0
-                and sequence_number not in loop_old.self.planned_jobs
-                and forall(int, lambda s: implies(s in loop_old.self.planned_jobs, picked_before(self, sequence_number, s)))
-                and implies(nothing_in_flight, sequence_number in old.self.planned_jobs
-                            and loop_old.self.current_jobs is old.self.planned_jobs[sequence_number]
-                            and forall(int, lambda s: implies(s in old.self.planned_jobs, s == sequence_number
-                                                              or picked_before(self, sequence_number, s)))))
-
-    def loop1_iter_before_and_next(self, k, application_job, iter_old):
-        ok = (effect_at('job_before', 0)[0] is application_job and effect_at('job_next', 0)[0] is application_job) \
-            if count_effects('job_before') == 1 and count_effects('job_next') == 1 else False
-        return ok
+        return k >= 0 and implies(nothing_in_flight, sequence_number in old.self.planned_jobs
+                                  and loop_old.self.current_jobs is old.self.planned_jobs[sequence_number]
+                                  and forall(int, lambda s: implies(s in old.self.planned_jobs, s == sequence_number
+                                                                    or picked_before(self, sequence_number, s))))
 
     def post_blocked_while_in_progress(self, old):
         blocked = len(old.self.current_jobs) > 0 and all_current_in_progress(self, old)
         return implies(blocked, plan_untouched(self, old))
+
+
+def flight_untouched(c, old):
+    """the part of plan_untouched the guard `not self.current_jobs` reads"""
+    return (c.current_jobs is old(c).current_jobs and len(c.current_jobs) == len(old(c).current_jobs)
+            and forall(str, lambda n: (n in c.current_jobs) == (n in old(c).current_jobs)
+                       and implies(n in c.current_jobs, c.current_jobs[n] is old(c).current_jobs[n]
+                                   and job_in_progress(c.current_jobs[n]))))
+
+
+@contract('commander:Commander.next', props=['C03', 'C09'])
+class CommanderNextGuard:
+    """Third facet (decision facet of CommanderNextBlocked under the smallest invariant that carries the guard): 'pop
+    lowest / highest sequence only when current group is empty' - while every application job in flight is still in
+    progress, no before() / next() is emitted and the call does not recurse."""
+    variants = ['Starter', 'Stopper']
+    raises = ('KeyError',)
+    recursive = True
+    effect = 'commander.next'
+    loop0_effects = ('after',)
+    loop1_effects = ('job_before', 'job_next')
+
+    def loop0_inv(self, k, old):
+        return k >= 0 and implies(all_current_in_progress(self, old), flight_untouched(self, old))
+
+    def loop1_inv(self, k):
+        return k >= 0
 
     def post_effect_blocked_while_in_progress(self, old):
         blocked = len(old.self.current_jobs) > 0 and all_current_in_progress(self, old)
